@@ -7,9 +7,9 @@ import QipVerif.Gen.QasmTables
 `_qasm_defns` / `_qasm_defn_resolve`.  Tables and format strings come from
 `Gen/QasmTables.lean`, regenerated from the source on every check.
 
-Numbers are carried as the text Python's `str` gives them (sign + unsigned text): `str` of a
-number is an external function of the model, supplied by the harness; the model decides
-truthiness from the digits.
+Numbers are carried as the text Python gives them (sign + unsigned text): the conversion of a
+number to text (`"{}".format(x)`, `str(x)`) is an external function of the model, supplied by the
+harness; the model decides truthiness from the digits.
 -/
 namespace QipVerif.Qasm.Export
 open QipVerif.Qasm
@@ -171,13 +171,74 @@ def declLines (c : Circuit) : List Str :=
   let l2 := if c.numCbits ≠ 0 then output l1 (Gen.cregFmt.1 ++ natDigits c.numCbits ++ Gen.cregFmt.2) 0 else l1
   output l2 [] 1
 
-/-- **`QasmOutput._qasm_output(qc)`**: the emitted lines or the exception -/
-def exportCircuit (c : Circuit) : Except Err (List Str) :=
+/-- `QasmOutput._qasm_output(qc)` on a circuit whose numbers are already given as the texts
+that are printed: the emitted lines or the exception -/
+def exportCore (c : Circuit) : Except Err (List Str) :=
   match defsLoop c.ops Gen.gateNameToQasm with
   | .error e => .error e
   | .ok (m, defs) =>
     match opsLoop m c.ops with
     | .error e => .error e
     | .ok ls => .ok (headerText ++ declLines c ++ defs ++ ls)
+
+/-! ## `_qasm_real`: the text of a parameter
+
+```
+text = "{}".format(value)
+mantissa, exp, exponent = text.partition("e")
+if exp and mantissa.lstrip("-").isdigit():
+    text = mantissa + ".0e" + exponent
+```
+-/
+
+/-- `text.partition("e")`: the text before the first `e`, and the text after it
+(`none`: there is no `e`) -/
+def partE : Str → Str × Option Str
+  | [] => ([], none)
+  | c :: cs => if c == 'e' then ([], some cs) else (c :: (partE cs).1, (partE cs).2)
+
+/-- `_qasm_real` on a text: if there is an `e` and the text before the first `e`, leading `-` signs
+stripped, is a non-empty string of digits, `.0` is inserted before that `e`
+(`1e-20` ↦ `1.0e-20`; `1.5e-07`, `0.25`, `3`, `inf`, `(1e-20, 2)` stay as they are).
+`str.isdigit` is modelled on ASCII (the harness passes ASCII only). -/
+def padExp (s : Str) : Str :=
+  match partE s with
+  | (m, some rest) =>
+    let d := m.dropWhile (· == '-')
+    if !d.isEmpty && d.all isDigit then m ++ '.' :: '0' :: 'e' :: rest else s
+  | (_, none) => s
+
+/-- the number as the exporter prints it.  The sign is carried apart: `lstrip("-")` removes it
+together with any further leading `-` of the text, so the rule on `-` ++ text is the rule on the
+unsigned text. -/
+def Num.out (x : Num) : Num := if Gen.exportPadsExponent then ⟨x.neg, padExp x.txt⟩ else x
+
+/-- the parameter value as it is printed: `_qasm_real` is applied to every element of a container
+of a joined type, and to the text of any other value (a scalar, or a container of another type) -/
+def ArgVal.out : ArgVal → ArgVal
+  | .none => .none
+  | .num x => .num x.out
+  | .seq kind whole xs =>
+    .seq kind (if Gen.exportPadsExponent then padExp whole else whole) (xs.map Num.out)
+
+def Gate.out (g : Gate) : Gate := { g with arg := g.arg.out }
+
+def Op.out : Op → Op
+  | .gate g => .gate g.out
+  | .meas ts st => .meas ts st
+
+/-- the circuit with every parameter replaced by its printed text
+(the identity unless `_qasm_str` uses `_qasm_real`, flag `Gen.exportPadsExponent`) -/
+def Circuit.out (c : Circuit) : Circuit := ⟨c.N, c.numCbits, c.ops.map Op.out⟩
+
+/-- **`QasmOutput._qasm_output(qc)`**: the emitted lines or the exception.
+
+`_qasm_str` applies `_qasm_real` to each parameter it prints and to nothing else: the presence
+test `q_args is not None` (or, before the first repair, truthiness of the *value*) and the
+`isinstance` branch do not look at the text, the loops over the gates only read names.  Printing
+the circuit is therefore `exportCore` on the circuit whose numbers carry their printed texts;
+`_qasm_real` keeps the truthiness the model derives from a text
+(`Lemmas/QasmExportPad.lean`: `argPresent_out`), so the tests give the same answers on both. -/
+def exportCircuit (c : Circuit) : Except Err (List Str) := exportCore c.out
 
 end QipVerif.Qasm.Export
